@@ -58,7 +58,18 @@ def render_member(kind, sig):
     return 'class C:\n  @staticmethod\n  def f(%s):\n    return %s\n' % (ps, ret), 'C.f'
   if kind == 'init':
     return 'class C:\n  def __init__(%s):\n    self.v = %s\n' % (first('self'), ret), 'C'
-  return 'class C:\n  def __new__(%s):\n    return object.__new__(cls)\n' % first('cls'), 'C'
+  if kind == 'new':
+    return 'class C:\n  def __new__(%s):\n    return object.__new__(cls)\n' % first('cls'), 'C'
+  # inherited members: the subclass defines nothing, so the constructor's other half is object's
+  if kind == 'new_inherited':
+    return 'class B:\n  def __new__(%s):\n    return object.__new__(cls)\nclass C(B):\n  pass\n' % first('cls'), 'C'
+  if kind == 'init_inherited':
+    return 'class B:\n  def __init__(%s):\n    self.v = %s\nclass C(B):\n  pass\n' % (first('self'), ret), 'C'
+  if kind == 'new_and_init':
+    return ('class C:\n  def __new__(cls, *args, **kwargs):\n    return object.__new__(cls)\n  def __init__(%s):\n    self.v = %s\n'
+            % (first('self'), ret)), 'C'
+  assert kind == 'method_inherited', kind
+  return 'class B:\n  def f(%s):\n    return %s\nclass C(B):\n  pass\n' % (first('self'), ret), 'C().f'
 
 
 def main():
@@ -170,8 +181,10 @@ def main():
   kwpool2 = kwpool + ['self', 'cls']
   kwsets2 = [()] + [(k,) for k in kwpool2] + list(itertools.combinations(kwpool2, 2))
   allshapes2 = [(n, ks) for n in range(5) for ks in kwsets2]
-  for kind in ('method', 'classmethod', 'classmethod_inst', 'staticmethod', 'init', 'new'):
-    for sig in rnd.sample(sigs, 8 if tier == 'quick' else 60):
+  KINDS = ('method', 'classmethod', 'classmethod_inst', 'staticmethod', 'init', 'new', 'new_inherited', 'init_inherited', 'new_and_init',
+           'method_inherited')
+  for kind in KINDS:
+    for sig in rnd.sample(sigs, 6 if tier == 'quick' else 50):
       src, callee = render_member(kind, sig)
       shapes = rnd.sample(allshapes2, 20 if tier == 'quick' else 60)
       body = src.rstrip('\n')
@@ -206,7 +219,7 @@ def main():
                                        kind, ' '.join(x.strip() for x in body.splitlines()[:-1]), lines[1 + li],
                                        'raises TypeError' if want[li][0] else 'binds',
                                        'reports ' + got[line] if line in got else 'reports nothing')))
-        elif want[li][1] is not None and kind not in ('init', 'new'):
+        elif want[li][1] is not None and kind in ('method', 'classmethod', 'classmethod_inst', 'staticmethod', 'method_inherited'):
           t = consts.get('r%d' % li, '')
           inner = t[t.find('[') + 1:t.rfind(']')] if '[' in t else ''
           got_types = [x.strip() for x in inner.split(',')] if inner else []
@@ -279,8 +292,8 @@ def main():
                     bound='%d signatures (<=2 positional-only, <=2 positional-or-keyword, <=2 keyword-only, defaults, *args, **kw) x %s call shapes (<=4 positionals, <=2 keywords)' % (
                         min(nsig, len(sigs)), '40 sampled' if tier == 'quick' else 'all 185'), cases=calls),
                dict(function='SignedFunction.set_function_defaults through the VM (f.__defaults__ = tuple)', bound='9 signatures x 4 tuples x 9 calls', cases=ndef),
-               dict(function='InterpreterFunction.call for methods, classmethods (through the class and an instance), staticmethods, __init__ and __new__ through the VM',
-                    bound='6 kinds x %d signatures x %d call shapes (keywords incl. self/cls)' % ((8, 20) if tier == 'quick' else (60, 60)), cases=nmeth),
+               dict(function='InterpreterFunction.call for methods, classmethods (through the class and an instance), staticmethods, __init__ and __new__ (own, inherited, both) through the VM',
+                    bound='10 kinds x %d signatures x %d call shapes (keywords incl. self/cls)' % ((6, 20) if tier == 'quick' else (50, 60)), cases=nmeth),
                dict(function='PyTDFunction / PyTDSignature binding through the VM (functions, methods and constructors declared in a stub on the pythonpath)',
                     bound='%d signatures x 3 callees x %d call shapes' % ((16, 15) if tier == 'quick' else (120, 50)), cases=npytd)],
       spec_validation=[dict(spec='bind_ok/bound_value (z3) vs real calls: the kernel is proved equal to the spec, and the VM is compared with real calls here')],
